@@ -133,6 +133,26 @@ def main():
             sio.save_slp(lab, ref, embed=False)
             plain["data_config"]["train_labels_path"] = ref
             plain["data_config"]["val_labels_path"] = ref
+        if job.get("wide"):
+            # frames that are NOT square (256 x 384, rows 64..320 of the asset frame): height and width are different
+            # numbers everywhere they are derived, recorded and used (seed C19_r11)
+            import numpy as np
+            import sleap_io as sio
+            from PIL import Image
+            lab = sio.load_slp(plain["data_config"]["train_labels_path"])
+            top = 64
+            lfs, vids = [], []
+            for k, lf in enumerate(lab):
+                png = os.path.join(work, "wide_frame%d.png" % k)
+                Image.fromarray(np.asarray(lf.image)[top:top + 256, :, 0]).save(png)
+                vid = sio.Video.from_filename([png])
+                vids.append(vid)
+                insts = [sio.Instance.from_numpy(inst.numpy() - np.array([0.0, top]), skeleton=lab.skeletons[0]) for inst in lf.instances]
+                lfs.append(sio.LabeledFrame(video=vid, frame_idx=0, instances=insts))
+            wide = os.path.join(work, "wide.slp")
+            sio.save_slp(sio.Labels(labeled_frames=lfs, videos=vids, skeletons=[lab.skeletons[0]]), wide)
+            plain["data_config"]["train_labels_path"] = wide
+            plain["data_config"]["val_labels_path"] = wide
         if job.get("test"):
             plain["data_config"]["test_file_path"] = plain["data_config"]["val_labels_path"]
         if job.get("lean") and not job["structured"]:
@@ -199,6 +219,14 @@ def main():
             obs["stage"] = "done"
             active[0] = False
             used = OmegaConf.to_container(trainer.config, resolve=True)
+            # the sizes the run actually worked with: what the datasets were built with (in-memory framework) / what the
+            # trainer handed to the chunk writers
+            ds = getattr(trainer, "train_dataset", None)
+            mh, mw = (getattr(ds, "max_hw", None) or (trainer.max_height, trainer.max_width))
+            obs["used_sizes"] = dict(max_height=mh, max_width=mw)
+            if job["model"] == "centered_instance":
+                ch = getattr(ds, "crop_hw", None) or (trainer.crop_hw, trainer.crop_hw)
+                obs["used_sizes"]["crop_hw"] = [int(ch[0]), int(ch[1])]
     except BaseException as e:  # noqa
         active[0] = False
         import traceback
@@ -272,6 +300,13 @@ def main():
     ini, fin = load("initial_config.yaml"), load("training_config.yaml")
     obs["initial_diff"] = (["<missing>"] if ini is None else diff_paths(blank(ini), blank(supplied)))[:12]
     obs["final_diff"] = (["<missing>"] if fin is None else (["<no live config>"] if used is None else diff_paths(blank(fin), blank(used))))[:12]
+    if fin is not None and obs.get("used_sizes"):
+        pre = fin["data_config"]["preprocessing"]
+        for k, v in obs["used_sizes"].items():
+            rec = pre.get(k)
+            rec = list(rec) if isinstance(rec, (list, tuple)) else rec
+            if rec != v and ("preprocessing.%s" % k) not in obs["final_diff"]:
+                obs["final_diff"].append("data_config.preprocessing.%s(recorded %s, run used %s)" % (k, rec, v))
     obs["states"] = states
     with open(sys.argv[2], "w") as f:
         json.dump(obs, f)
